@@ -26,7 +26,7 @@ def main(argv: List[str]) -> int:
     for fi, contract, label in items:
         def on_fail(o, label=label, contract=contract):
             return False, {"key": f"{label}:post", "what": f"{label.split('::')[-1]} no longer computes '{contract.note}'"}
-        verify(run, stats, world, interp, fi, contract, label, on_fail)
+        verify(run, stats, world, interp, fi, contract, label, on_fail, lambda msg, label=label: run.notes.append(f"{label}: outside the verified subset ({msg}); the exhaustive per-attribute table and the toggle / constructor sweeps stand in (bounded in the surrounding value)"))
     # ---- evaluated exhaustively: wire name of every attribute (exercises _to_camel_case on every committed name), omit rule, pairing
     res = check_classes(live, mm, decls)
     n1, d1 = _tables.report(run, res, ["class-exists", "attr-for-prop", "no-extra-attr", "wire-name", "special", "default", "annotation"])
